@@ -3,6 +3,7 @@ package config
 import (
 	"errors"
 	"fmt"
+	"maps"
 	"strings"
 
 	"dario.cat/mergo"
@@ -37,10 +38,15 @@ func LoadConfigWithDefaultsFromBundle(regalBundle *bundle.Bundle, userConfig *Co
 	}
 
 	providedRuleLevels := providedConfLevels(&defaultConfig)
+	providedRules := providedRulesInUserConfig(&defaultConfig, userConfig)
 
 	if err = mergo.Merge(&defaultConfig, userConfig, mergo.WithOverride); err != nil {
 		return Config{}, fmt.Errorf("failed to merge user config: %w", err)
 	}
+
+	// rules are structs held in maps, which the merge replaces as a whole: bring back
+	// the provided value of every rule option that the user configuration left unset
+	restoreProvidedRuleOptions(&defaultConfig, providedRules)
 
 	if defaultConfig.Capabilities == nil {
 		defaultConfig.Capabilities = CapabilitiesForThisVersion()
@@ -51,6 +57,55 @@ func LoadConfigWithDefaultsFromBundle(regalBundle *bundle.Bundle, userConfig *Co
 	extractUserRuleLevels(userConfig, &defaultConfig, providedRuleLevels)
 
 	return defaultConfig, nil
+}
+
+// providedRulesInUserConfig returns a copy of each provided rule that the user configuration also
+// contains, as the provided configuration had it before the user configuration was merged on top of it.
+func providedRulesInUserConfig(providedConf *Config, userConfig *Config) map[string]Category {
+	providedRules := make(map[string]Category)
+
+	for categoryName, userRules := range userConfig.Rules {
+		for ruleName := range userRules {
+			provided, ok := providedConf.Rules[categoryName][ruleName]
+			if !ok {
+				continue
+			}
+
+			provided.Extra = maps.Clone(provided.Extra)
+
+			if providedRules[categoryName] == nil {
+				providedRules[categoryName] = make(Category)
+			}
+
+			providedRules[categoryName][ruleName] = provided
+		}
+	}
+
+	return providedRules
+}
+
+// restoreProvidedRuleOptions completes the rules taken over from the user configuration with the options
+// (and ignore setting) of the provided configuration that the user configuration did not set. The rule
+// values of the user configuration are left untouched.
+func restoreProvidedRuleOptions(mergedConf *Config, providedRules map[string]Category) {
+	for categoryName, rules := range providedRules {
+		for ruleName, provided := range rules {
+			rule := mergedConf.Rules[categoryName][ruleName]
+
+			extra := make(ExtraAttributes, len(provided.Extra)+len(rule.Extra))
+
+			maps.Copy(extra, provided.Extra)
+			maps.Copy(extra, rule.Extra)
+
+			rule.Extra = extra
+
+			if rule.Ignore == nil {
+				rule.Ignore = provided.Ignore
+			}
+
+			mergedConf.Rules[categoryName][ruleName] = rule
+		}
+	}
 }
 
 // extractUserRuleLevels uses defaulting config and per-rule levels from user configuration to set the level for each
